@@ -276,6 +276,8 @@ pub struct Generics {
     pub where_preds: Vec<String>,
     /// declare the const parameters before the type parameters (legal since Rust 1.59)
     pub consts_first: bool,
+    /// a `where` keyword with no predicate behind it (legal: `struct S<T> where { a: T }`, `struct S<T>(T) where;`)
+    pub empty_where: bool,
 }
 
 #[derive(Clone, Debug, PartialEq, Eq, Hash)]
@@ -388,6 +390,14 @@ impl Generics {
             v.extend(cs);
         }
         format!("<{}>", v.join(", "))
+    }
+    /// the where-clause as the definition writes it: possibly the bare keyword
+    pub fn where_clause_decl(&self) -> String {
+        if self.where_preds.is_empty() && self.empty_where {
+            " where".to_string()
+        } else {
+            self.where_clause()
+        }
     }
     pub fn where_clause(&self) -> String {
         if self.where_preds.is_empty() {
@@ -556,10 +566,19 @@ fn render_tparam(p: &TParam, sp: u8) -> String {
     }
 }
 
+/// a multi-token Into target with other white space between its tokens (the same tokens; only a reader that looks at the
+/// source text could tell)
+pub fn spaced_ty(t: &str, sp: u8) -> String {
+    if sp & 0x10 == 0 {
+        return t.to_string();
+    }
+    t.replace("&'", "& '").replace('<', " < ").replace('>', " >").replace("::", " :: ")
+}
+
 pub fn render_tattr(a: &TAttr) -> String {
     let n = a.tr.name();
     if a.tr == Tr::Into {
-        let mut s = format!("Into({}", a.into_ty.as_deref().unwrap_or("u8"));
+        let mut s = format!("Into({}", spaced_ty(a.into_ty.as_deref().unwrap_or("u8"), a.sp));
         for (p, sp) in &a.params {
             write!(s, ", {}", render_tparam(p, *sp)).unwrap();
         }
@@ -603,7 +622,7 @@ fn render_fparam(p: &FParam, sp: u8) -> String {
 pub fn render_fattr(a: &FAttr) -> String {
     let n = a.tr.name();
     if a.tr == Tr::Into {
-        let mut s = format!("Into({}", a.into_ty.as_deref().unwrap_or("u8"));
+        let mut s = format!("Into({}", spaced_ty(a.into_ty.as_deref().unwrap_or("u8"), a.sp));
         for (p, sp) in &a.params {
             write!(s, ", {}", render_fparam(p, *sp)).unwrap();
         }
@@ -887,7 +906,14 @@ impl TypeSpec {
             writeln!(o, "#[derive({derive})]").unwrap();
         }
         if let Some(r) = &self.repr {
-            writeln!(o, "#[repr({r})]").unwrap();
+            // several items may share one attribute or come in attributes of their own
+            if r.contains(", ") && self.split & 0x40 != 0 {
+                for item in r.split(", ") {
+                    writeln!(o, "#[repr({item})]").unwrap();
+                }
+            } else {
+                writeln!(o, "#[repr({r})]").unwrap();
+            }
         }
         render_noise(&self.noise, true, "", &mut o);
         if educe_attrs {
@@ -904,7 +930,7 @@ impl TypeSpec {
             Kind::Union => "union",
         };
         write!(o, "pub {kw} {}{}", self.name, self.gens.decl()).unwrap();
-        let wc = self.gens.where_clause();
+        let wc = self.gens.where_clause_decl();
         match self.kind {
             Kind::Struct => {
                 let v = &self.variants[0];
